@@ -19,7 +19,7 @@ SPEC = Spec(
                 test="TestVerifC11Graph", driver="drv_c11", n={"quick": 800, "thorough": 10000}),
         Harness(name="service", module="service", pkg="service",
                 files={"zz_verif_c11_service_test.go": "c11/service_test.go"},
-                test="TestVerifC11Service", driver="drv_c11", n={"quick": 300, "thorough": 4000},
+                test="TestVerifC11Service", driver="drv_c11", n={"quick": 800, "thorough": 8000},
                 mod_append=["require go.opentelemetry.io/collector/internal/sharedcomponent v0.124.0",
                             "replace go.opentelemetry.io/collector/internal/sharedcomponent => $REPO/internal/sharedcomponent"]),
         Harness(name="extensions", module="service", pkg="service/extensions",
@@ -27,19 +27,27 @@ SPEC = Spec(
                 test="TestVerifC11Extensions", driver="drv_c11", n={"quick": 500, "thorough": 5000}),
     ],
     rule="service: the real service.New/Start/Shutdown with a status-watcher extension (the property's observation point), scripted "
-         "components and a receiver shared across two signals through the real sharedcomponent; non-shared instances compared exactly "
-         "with Life.events, all instances monitored by docPathB, shared instances must end in the same status. extensions: real extensions.New/Start/Shutdown with 1-5 extensions failing Start/Shutdown at random, per-extension events "
+         "components (receiver and exporter optionally listed by TWO pipelines: instance ids with several pipeline ids) and a receiver "
+         "shared across two signals through the real sharedcomponent whose single Start may fail; non-shared instances compared exactly "
+         "with Life.events, the two shared instances exactly with SharedLife.eventsX/eventsY, all instances monitored by docPathB; every "
+         "6th case 'stormy' (every component keeps reporting from its own goroutine while the service shuts down: monitored only). extensions: real extensions.New/Start/Shutdown with 1-5 extensions failing Start/Shutdown at random, per-extension events "
          "compared with Life.events; non-trivial = some failure. graph: real graph.Build/StartAll/ShutdownAll with components that report random statuses from Start, while running (one goroutine "
          "per instance) and from Shutdown and that fail Start/Shutdown at random; per-instance events compared with Life.events; "
          "non-trivial = some component reports itself. reporter: random report sequences (0-30 reports, 1-3 instances, all 8 statuses + ReportOKIfStarting) against the real "
-         "status.Reporter, every 5th case concurrent goroutines (monitored); non-trivial = contains an illegal report or is concurrent. "
-         "shared: real sharedcomponent.Component with 1-4 instance hosts attached at random points of a random report history; "
-         "non-trivial = at least two instances attached. distinct = distinct op sequences (sha1 of the op lines).",
+         "status.Reporter; every 5th case 2-4 goroutines run scripts fixed in advance and the driver SEARCHES, per instance, for an "
+         "interleaving of the scripts whose run through the model delivers exactly the observed events (prop lin; exhaustive layered "
+         "search); race mode: ReportOKIfStarting against a concurrent report; non-trivial = contains an illegal report or is concurrent. "
+         "shared: real sharedcomponent.Component with 1-4 instance hosts attached at random points of a random report history: after "
+         "every step the status of every instance, at the end the WHOLE event sequence of every instance's watcher, compared with the "
+         "model (WrapperE, C11_shared_events_partial); race modes: concurrent reports with a slow host (same order at every instance), "
+         "attach while reporting (a late instance must not miss a report); non-trivial = at least two instances attached. distinct = distinct op sequences (sha1 of the op lines).",
     trusted_base=[
         "Lean 4.33.0 kernel; axioms per theorem listed under axioms_per_theorem (subset of propext, Classical.choice, Quot.sound)",
         "translator translators/cmd/statustable (go/ast): extracts the transitions map literal of newFSM, the Status iota order, ring.New(n); checks the statement shape of fsm.transition",
         "hand-written model of reporter.ReportStatus / ReportOKIfStarting / hostWrapper.Report / addSource, tied by exact differential on every run",
-        "atomicity of a report under reporter.mu is assumed (modelled as sequential composition), monitored under concurrent goroutines",
+        "atomicity of a report under reporter.mu is assumed (modelled as sequential composition): no sub-step LTS of lock / read / "
+        "write / callback; under concurrent goroutines the assumption is CHECKED per case by the interleaving search (a search in the "
+        "driver, not a theorem: exhaustive, so it cannot raise a false alarm; a wrong 'explained' would only miss a detection)",
         "docs/component-status.md figure transcribed by hand as figureTable",
     ],
     assumptions=[
